@@ -264,7 +264,7 @@ type Scenario struct {
 
 type Injection struct {
 	Day   int       // offset from start day
-	WFrac []float64 // per layer fraction in [0,1]: WG = WMIN/3 + f*(W-WMIN/3)
+	WFrac []float64 // per layer fraction in [0,1]: WG = WMIN/3 + f*(W-WMIN/3); negative: WG = WMIN/3 * (1+f), an air-dry sample
 	N     []float64 // per layer mineral N
 	Rain  float64   // cm, <0 = leave
 }
@@ -702,6 +702,13 @@ func genWithProfile(prop string, seed uint64, idx int, r *Rng, p Profile) *Scena
 			}
 			if r.Bool(0.4) {
 				inj.Rain = float64(r.Range(0, 200)) / 10
+			}
+			if r8 := NewRng(mix(mix(seed, uint64(idx)), uint64(4000+i))); r8.Bool(0.15) {
+				// air-dry top soil (a sampled water content below a third of the wilting point) and next to no rain that day
+				for z := 0; z < n && z < r8.Range(1, 3); z++ {
+					inj.WFrac[z] = -r8.Uniform(0.05, 0.7)
+				}
+				inj.Rain = float64(r8.Range(0, 3)) / 100
 			}
 			sc.Inject = append(sc.Inject, inj)
 		}
